@@ -62,7 +62,7 @@ def finite_tables(rep):
 
 def run(tier, only=None):
     rep = common.Report("C13", tier, "other", FILES)
-    T = 40 if tier == "quick" else 240
+    T = 70 if tier == "quick" else 300
     conds = []
     for f in ["h_slice_p1", "h_slice_p2", "h_slice_p3", "h_slice_p4", "h_slice_m1", "h_slice_m2", "h_slice_m3", "h_slice_m4"]:
         conds.append(runner.Cond(HF, f, T, key="slice-kernel-" + ("neg" if "_m" in f else "pos")))
